@@ -771,6 +771,8 @@ class Engine(object):
         q = '%s:%s' % (module, attr)
         if q in self.spec.contracts:
             return mk_py(('func', q))
+        if q in self.spec.handlers or q == 'functools:partial':
+            return mk_py(('extern', q))
         if q in self.spec.consts:
             return self.const_sv(self.spec.consts[q], node)
         if module.split('.')[0] in STDLIB_CONST_MODULES:
@@ -783,7 +785,8 @@ class Engine(object):
         if attr in self.spec.exc_parent:
             return mk_py(('excclass', attr))
         sub = '%s.%s' % (module, attr)
-        if any(k.startswith(sub + ':') or k.startswith(sub + '.') for k in self.spec.contracts):
+        if any(k.startswith(sub + ':') or k.startswith(sub + '.')
+               for k in list(self.spec.contracts) + list(self.spec.handlers)):
             return mk_py(('module', sub))
         if self.src.module(sub) is not None:
             return mk_py(('module', sub))
